@@ -1413,8 +1413,25 @@ def struct_by_shape(F, pred):
 
 
 def _ident(x):
-    while x[0] == 'cast':
-        x = x[1]
+    for _ in range(8):
+        if x[0] == 'cast':
+            x = x[1]
+        elif x[0] in ('try', 'await'):
+            # the object `f()?` / `f().await` yields is the one f produced (error alternatives of f do not get here)
+            x = x[1]
+            if x[0] == 'phi':
+                good = [a for a in x[1] if not ((a[0] == 'call' and a[1].endswith('from_residual')) or
+                                                (a[0] == 'agg' and a[1] == 'adt' and a[3] in ('Err', 'None')))]
+                if len(good) == 1:
+                    x = good[0]
+        elif x[0] == 'agg' and x[1] == 'adt' and x[3] in ('Ok', 'Some') and len(x[4]) == 1:
+            x = x[4][0][1]
+        elif x[0] == 'field' and x[2] == '0' and x[1][0] == 'variant' and x[1][2] in ('Ok', 'Some'):
+            x = x[1][1]
+        elif x[0] == 'phi' and len({_ident_key(a) for a in x[1]}) == 1:
+            x = x[1][0]
+        else:
+            break
     if x[0] in ('var', 'mvar') and len(x) > 2 and isinstance(x[-1], int):
         return ('L', x[-1])
     if x[0] in ('var', 'mvar'):
@@ -1422,6 +1439,11 @@ def _ident(x):
     if x[0] == 'call' and x[1] not in ('poll', 'branch'):
         return ('C', x[3])
     return None
+
+
+def _ident_key(a):
+    i = _ident(a)
+    return i if i is not None else ('?', show(a)[:80])
 
 
 def local_defs(f, l):
